@@ -117,6 +117,9 @@ func ParseReadWriteMultipleRegistersRequestTCP(data []byte) (*ReadWriteMultipleR
 	if err != nil {
 		return nil, err
 	}
+	if len(data) < 17 {
+		return nil, newErrorParseTCPTooShort(header, data, FunctionReadWriteMultipleRegisters)
+	}
 	unitID := data[6]
 	if data[7] != FunctionReadWriteMultipleRegisters {
 		tmpErr := NewErrorParseTCP(ErrIllegalFunction, "received function code in packet is not 0x17")
